@@ -481,14 +481,53 @@ def run(scen):
             if op['op'] == 'abandon':
                 mech = op.get('how', 'break')
     n_connects = scen.get('n_connects', 1) if persist_cfg is None else 1
+    held = [None]       # `events = ws.connect(...)` variable of the consumer
     for i in range(n_connects):
         if i:
             trace.events.append(_sep(w, len(trace.events)))
-        _iterate(trace, make_gen, app, max_events, ws, mech,
-                 bool(scen.get('observe_release')))
+        if mech == 'rebind':
+            # events = ws.connect(...): the new generator exists before the
+            # old (abandoned, still suspended) one is released
+            def make_and_rebind():
+                new = make_gen()
+                held[0] = new
+                return new
+            _iterate_rebind(trace, make_and_rebind, app, max_events)
+        else:
+            _iterate(trace, make_gen, app, max_events, ws, mech,
+                     bool(scen.get('observe_release')))
         if trace.hang or trace.escaped:
             break
+    held[0] = None
     return trace
+
+
+def _iterate_rebind(trace, make_gen, app, max_events):
+    w = trace.world
+    try:
+        gen = make_gen()        # the caller's variable now holds only `gen`
+        idx = len(trace.events)
+        for event in gen:
+            rec = EvRec()
+            rec.seq = w.next_seq()
+            rec.t = w.now
+            rec.name = event.name
+            rec.obj = event
+            rec.snap = snapshot(event)
+            rec.index = idx
+            rec.conn = w.conn_index
+            rec.wire_len = len(w.socks[-1].out_bytes) if w.socks else 0
+            trace.events.append(rec)
+            idx += 1
+            r = app.react(rec)
+            if r is not None and r[0] == 'abandon':
+                trace.abandoned = (rec.index, r[1], rec.name)
+                return          # stop iterating; `held` keeps it suspended
+        trace.finished = True
+    except W.SimHang as e:
+        trace.hang = str(e)
+    except Exception as e:
+        trace.escaped = (type(e).__name__, str(e)[:200])
 
 
 def _sep(w, idx):
